@@ -574,13 +574,17 @@ func runC04R2(c *core.Ctx, codecs []*frameCodec) {
 		if p.PkgRel(fn) != "codec/frame" || fn.Parent() != nil || fn.Object() == nil || !fn.Object().Exported() {
 			continue
 		}
-		// the widths the constructor admits: the constants an int parameter is compared against with != in the
-		// membership assertion (`w != 1 && w != 2 && ...`), read from SSA so that the assertion may be spelled as
-		// AssertIf(...), as if/panic, or live in a helper that the normal form inlines
-		admitted := map[int64]bool{}
+		// the widths the constructor admits, decided by evaluating the constructor for each candidate value of an
+		// int parameter that is compared with constants (== / !=): the membership assertion may be spelled as a
+		// != chain, a switch in a predicate helper that the normal form inlines, AssertIf(...) or if/panic
+		var wprm *ssa.Parameter
+		cands := map[int64]bool{}
+		for k := range psw.cases {
+			cands[k] = true
+		}
 		core.AllInstrs(fn, func(in ssa.Instruction) {
 			b, ok := in.(*ssa.BinOp)
-			if !ok || b.Op != token.NEQ {
+			if !ok || (b.Op != token.NEQ && b.Op != token.EQL) {
 				return
 			}
 			x, y := b.X, b.Y
@@ -590,25 +594,57 @@ func runC04R2(c *core.Ctx, codecs []*frameCodec) {
 			if !isIntT(x.Type()) {
 				return
 			}
-			if core.ParamOf(fn, x) < 0 {
-				// validated after construction: a load of an int field of the codec being built
-				if f, _ := core.FieldOf(x); f == nil {
+			k, isC := core.ConstInt(y)
+			if !isC {
+				return
+			}
+			x = stripConv(x)
+			pi := core.ParamOf(fn, x)
+			if pi < 0 {
+				// validated after construction: a load of an int field of the codec being built, which a parameter was stored into
+				f, base := core.FieldOf(x)
+				if f == nil {
+					return
+				}
+				core.AllInstrs(fn, func(y ssa.Instruction) {
+					if st, ok := y.(*ssa.Store); ok {
+						if sf, sb := core.FieldOf(st.Addr); sf == f && sb == base {
+							if qi := core.ParamOf(fn, stripConv(st.Val)); qi >= 0 {
+								pi = qi
+							}
+						}
+					}
+				})
+				if pi < 0 {
 					return
 				}
 			}
-			if k, isC := core.ConstInt(y); isC {
-				admitted[k] = true
+			if wprm != nil && wprm != fn.Params[pi] {
+				return // first compared parameter is the width (a second one would need its own table)
 			}
+			wprm = fn.Params[pi]
+			cands[k] = true
 		})
-		if len(admitted) == 0 {
+		if wprm == nil {
 			continue
 		}
 		c.Instance("R2")
 		m := map[int64][]string{}
-		for k := range admitted {
-			m[k] = nil
+		for k := range cands {
+			if admitsValue(p, fn, wprm, k, false) {
+				m[k] = nil
+			}
 		}
-		c.Check(keys(m) == keys(psw.cases), "R2", "constructor-widths/"+core.FName(fn), p.Pos(fn.Pos()), "admits exactly the widths the packer handles", "constructor admits widths "+keys(m)+" but the packer handles "+keys(psw.cases))
+		if admitsValue(p, fn, wprm, 0, true) {
+			m[-1] = nil // a value different from every constant the constructor mentions is let through
+		}
+		subset := true
+		for k := range m {
+			if _, ok := psw.cases[k]; !ok {
+				subset = false
+			}
+		}
+		c.Check(subset && len(m) > 0, "R2", "constructor-widths/"+core.FName(fn), p.Pos(fn.Pos()), "admits only widths the packer handles: "+keys(m), "constructor admits widths "+keys(m)+" (-1: any other value) but the packer handles "+keys(psw.cases))
 		// default encoder built from own parameters
 		core.AllInstrs(fn, func(in ssa.Instruction) {
 			cc := core.CallCommon(in)
@@ -970,4 +1006,187 @@ func sameOrigin(a, b ssa.Value) bool {
 		}
 	}
 	return false
+}
+
+
+// admitsValue: can constructor fn return normally when its int parameter prm has the value k (other: a value
+// different from every constant prm is compared with)? Conditions that do not depend on prm alone are
+// followed on both sides. A path ends rejected at a panic or at an AssertIf whose condition evaluates to true.
+func admitsValue(p *core.Prog, fn *ssa.Function, prm *ssa.Parameter, k int64, other bool) bool {
+	type tri int8 // 0 unknown, 1 true, 2 false
+	const (
+		unk tri = iota
+		yes
+		no
+	)
+	isPrm := func(v ssa.Value) bool {
+		v = stripConv(v)
+		if v == ssa.Value(prm) {
+			return true
+		}
+		// a load of the field of the object under construction that prm was stored into
+		f, base := core.FieldOf(v)
+		if f == nil {
+			return false
+		}
+		found := false
+		core.AllInstrs(fn, func(y ssa.Instruction) {
+			if st, ok := y.(*ssa.Store); ok {
+				if sf, sb := core.FieldOf(st.Addr); sf == f && sb == base && stripConv(st.Val) == ssa.Value(prm) {
+					found = true
+				}
+			}
+		})
+		return found
+	}
+	var eval func(v ssa.Value, env map[*ssa.Phi]ssa.Value, d int) tri
+	eval = func(v ssa.Value, env map[*ssa.Phi]ssa.Value, d int) tri {
+		if d > 12 {
+			return unk
+		}
+		switch x := v.(type) {
+		case *ssa.Const:
+			if isBool(x.Type()) {
+				if constBool(x) {
+					return yes
+				}
+				return no
+			}
+		case *ssa.UnOp:
+			if x.Op == token.NOT {
+				switch eval(x.X, env, d+1) {
+				case yes:
+					return no
+				case no:
+					return yes
+				}
+			}
+		case *ssa.Phi:
+			if e, ok := env[x]; ok {
+				return eval(e, env, d+1)
+			}
+		case *ssa.BinOp:
+			a, b, op := x.X, x.Y, x.Op
+			if _, isC := core.ConstInt(a); isC {
+				a, b = b, a
+				switch op {
+				case token.LSS:
+					op = token.GTR
+				case token.GTR:
+					op = token.LSS
+				case token.LEQ:
+					op = token.GEQ
+				case token.GEQ:
+					op = token.LEQ
+				}
+			}
+			cst, isC := core.ConstInt(b)
+			if !isC || !isPrm(a) {
+				return unk
+			}
+			if other {
+				switch op {
+				case token.EQL:
+					return no
+				case token.NEQ:
+					return yes
+				}
+				return unk
+			}
+			var r bool
+			switch op {
+			case token.EQL:
+				r = k == cst
+			case token.NEQ:
+				r = k != cst
+			case token.LSS:
+				r = k < cst
+			case token.LEQ:
+				r = k <= cst
+			case token.GTR:
+				r = k > cst
+			case token.GEQ:
+				r = k >= cst
+			default:
+				return unk
+			}
+			if r {
+				return yes
+			}
+			return no
+		}
+		return unk
+	}
+	type state struct {
+		b, pred *ssa.BasicBlock
+	}
+	seen := map[state]int{}
+	admitted := false
+	var walk func(b, pred *ssa.BasicBlock, env map[*ssa.Phi]ssa.Value)
+	walk = func(b, pred *ssa.BasicBlock, env map[*ssa.Phi]ssa.Value) {
+		if admitted || seen[state{b, pred}] > 8 {
+			return
+		}
+		seen[state{b, pred}]++
+		if pred != nil {
+			idx := -1
+			for i, pb := range b.Preds {
+				if pb == pred {
+					idx = i
+				}
+			}
+			ne := map[*ssa.Phi]ssa.Value{}
+			for k2, v := range env {
+				ne[k2] = v
+			}
+			for _, in := range b.Instrs {
+				phi, ok := in.(*ssa.Phi)
+				if !ok {
+					break
+				}
+				if idx >= 0 {
+					e := phi.Edges[idx]
+					// a φ fed by a φ of the path so far takes that φ's chosen value
+					if p2, ok := e.(*ssa.Phi); ok {
+						if v, ok := env[p2]; ok {
+							e = v
+						}
+					}
+					ne[phi] = e
+				}
+			}
+			env = ne
+		}
+		for _, in := range b.Instrs {
+			switch x := in.(type) {
+			case *ssa.Panic:
+				return
+			case *ssa.Return:
+				admitted = true
+				return
+			case *ssa.If:
+				switch eval(x.Cond, env, 0) {
+				case yes:
+					walk(b.Succs[0], b, env)
+				case no:
+					walk(b.Succs[1], b, env)
+				default:
+					walk(b.Succs[0], b, env)
+					walk(b.Succs[1], b, env)
+				}
+				return
+			case *ssa.Jump:
+				walk(b.Succs[0], b, env)
+				return
+			default:
+				if cond, ok := isAssertIf(p, in); ok && eval(cond, env, 0) == yes {
+					return
+				}
+			}
+		}
+	}
+	if len(fn.Blocks) > 0 {
+		walk(fn.Blocks[0], nil, map[*ssa.Phi]ssa.Value{})
+	}
+	return admitted
 }
